@@ -28,6 +28,18 @@ Fixpoint list_eqb {A} (eqb : A -> A -> bool) (x y : list A) : bool :=
   end.
 
 Definition nsort (l : list N) : list N := sort_by N.ltb l.
+(* a reported node list as a sorted SET: the property speaks of which nodes are reported; getHitKey
+   reports a node once per occurrence in the configured list (a name configured twice is reported
+   twice), [hits] once: the multiplicity is not an observable *)
+Fixpoint nuniq (l : list N) : list N :=
+  match l with
+  | [] => []
+  | x :: l' => match l' with
+               | y :: _ => if N.eqb x y then nuniq l' else x :: nuniq l'
+               | [] => [x]
+               end
+  end.
+Definition nset (l : list N) : list N := nuniq (nsort l).
 Definition ksort {A} (l : list (N * A)) : list (N * A) := sort_by (fun a b => N.ltb (fst a) (fst b)) l.
 
 Definition gstate_eqb (a b : gstate) : bool :=
@@ -48,7 +60,7 @@ Inductive oinfo := OInfo (st : gst) (before after rerun : list N) (subs : list (
 Fixpoint proj_ninfo (ni : ninfo) : oinfo :=
   match ni with
   | NInfo i =>
-    OInfo (ii_gs i) (nsort (ii_before i)) (nsort (ii_after i)) (nsort (ii_rerun i))
+    OInfo (ii_gs i) (nset (ii_before i)) (nset (ii_after i)) (nset (ii_rerun i))
           (ksort (map (fun kv => (fst kv, proj_ninfo (snd kv))) (ii_subs i)))
   end.
 Definition proj_info (i : inf) : oinfo := proj_ninfo (NInfo i).
